@@ -10,7 +10,12 @@
 (*   arith     (fn)       common.GCD/LCM = gcd/lcm BY DEFINITION (IsGcd,   *)
 (*                        IsLcm: divisibility + minimality/maximality),    *)
 (*                        both argument orders, no panic                   *)
-(*   reported  (describe, stream) HistoryShardCount answered = Lcm(l,r)    *)
+(*   reported  (describe, stream) HistoryShardCount answered = Lcm(l,r),   *)
+(*                        with or without a failover-version-increment     *)
+(*                        translation configured for that side             *)
+(*   fvi       (describe) FailoverVersionIncrement answered = the          *)
+(*                        translation configured for that side, else the   *)
+(*                        cluster's own                                    *)
 (*   direction (describe, stream) the inbound server talks to the local    *)
 (*                        cluster, the outbound server to the remote one,  *)
 (*                        and that cluster has Count(l,r,dir) shards       *)
@@ -52,8 +57,11 @@ OnFn(e) ==
   Bad(IsGcd(g, e.l, e.r) /\ IsLcm(m, e.l, e.r), "specarith") \cup
   Bad(e.fail = "" /\ e.gcd = g /\ e.gcdr = g /\ e.lcm = m /\ e.lcmr = m, "arith")
 
+\* LcmMap!Describe: the shard-count override and the failover-version-increment override are independent
+FviOverride(e) == IF e.dir = "inbound" THEN e.fviLocal ELSE e.fviRemote
 OnDescribe(e) ==
   Bad(e.fail = "" /\ e.reported = Lcm(e.l, e.r), "reported") \cup
+  Bad(e.fail # "" \/ e.fvi = (IF FviOverride(e) # 0 THEN FviOverride(e) ELSE e.fviRaw), "fvi") \cup
   Bad(e.fail # "" \/ (e.up = UpOf(e.dir) /\ e.raw = Count(e.l, e.r, e.dir)), "direction")
 
 OnStream(e) ==
